@@ -588,11 +588,61 @@ def run_pair(case, st):
         try:
             ba, bb = a.to_bytes(), b.to_bytes()
         except Exception:
-            return
+            ba = bb = None
 
         if ba != bb:
             st.violation('equal-trees-serialise-differently',
                          '%r vs %r' % (ba[:120], bb[:120]), case)
+            return
+
+    # history: b has now been compared (and perhaps serialised); edit it in
+    # place without changing the number of sections and look again
+    edits = []
+
+    if len(b.changes) >= 2:
+        b.changes.reverse()
+        edits.append('changes reversed')
+
+    for ch in b.changes:
+        if len(ch.files) >= 2:
+            ch.files[0], ch.files[-1] = ch.files[-1], ch.files[0]
+            edits.append('files swapped')
+            break
+
+    if b.changes:
+        b.changes[0].meta = {'edited': True}
+        edits.append('meta replaced')
+
+    if not edits:
+        return
+
+    sb2 = trees.snapshot(b)
+    want = py_eq(sa, sb2)
+
+    try:
+        eq2 = (a == b)
+    except Exception as e:
+        st.violation('comparison-raised:%s' % type(e).__name__, repr(e), case)
+        return
+
+    if eq2 != want and trees.snap_eq(sa, sb2) == want:
+        st.violation('equality-depends-on-history',
+                     'after %s, == gave %r for trees whose options and '
+                     'contents are %s' % (', '.join(edits), eq2,
+                                          'equal' if want else 'different'),
+                     case)
+        return
+
+    try:
+        now = b.to_bytes()
+        fresh = trees.rebuild(sb2).to_bytes()
+    except Exception:
+        return
+
+    if now != fresh:
+        st.violation('serialisation-depends-on-history',
+                     'after %s, to_bytes() differs from a fresh tree with '
+                     'the same options and contents' % ', '.join(edits), case)
 
 
 def checks():
